@@ -101,13 +101,13 @@ fn main() {
             json!({"events": 1})
         }
         "scen" => {
-            let v = srch::scenarios(&t, &seeds(), a.n("seed", 1), a.n("small", 10) as usize, a.n("mate", 10) as usize, a.n("rep", 10) as usize, a.n("game", 5) as usize, a.n("term", 0) as usize);
+            let v = srch::scenarios(&t, &seeds(), a.n("seed", 1), a.n("small", 10) as usize, a.n("mate", 10) as usize, a.n("rep", 10) as usize, a.n("game", 5) as usize, a.n("term", 0) as usize, a.n("fam", 0) as usize);
             std::fs::write(a.s("out", "scen.json"), serde_json::to_string(&v).unwrap()).unwrap();
             json!({"scenarios": v.as_array().unwrap().len()})
         }
         "expiry" | "trees" => {
             let v: Value = serde_json::from_str(&std::fs::read_to_string(a.s("scen", "scen.json")).unwrap()).unwrap();
-            let tags: Vec<String> = a.s("tags", "small,mate,rep,game").split(',').map(|x| x.to_string()).collect();
+            let tags: Vec<String> = a.s("tags", "small,mate,rep,game,fam").split(',').map(|x| x.to_string()).collect();
             let cmds: Vec<String> = v.as_array().unwrap().iter().filter(|x| tags.contains(&x["tag"].as_str().unwrap().to_string()))
                 .map(|x| x["cmd"].as_str().unwrap().to_string()).collect();
             if a.cmd == "expiry" {
